@@ -153,11 +153,28 @@ def run(chk):
         ("{'b': 1, 'a': 2, 'c': 3}.filter(q, q != 'a')", "OK " + vlist([vs("b"), vs("c")])),
         ("{'b': x9, 'a': 2, 'é': 3, 'B': 4}.map(q, q)", "OK " + vlist([vs("B"), vs("a"), vs("b"), vs("é")])),
         ("[1, 2].map(int, int)", None),
+        # a stored program that reads the loop variable's name, referenced outside the macro first and inside its body
+        # afterwards: it is evaluated under the bindings in force at each reference (dbl := v * 2, cur := has(zz) ? zz : -1)
+        ("dbl > 0 ? [1, 2, 3].map(v, dbl) : []", "OK " + vlist([vi(2), vi(4), vi(6)])),
+        ("[1, 2, 3].reduce(acc, v, acc + dbl, dbl)", "OK " + vi(212)),
+        ("dbl > 0 && [7, 8].map(v, dbl) == [14, 16]", "OK b1"),
+        ("[dbl, [1, 2].map(v, dbl)]", "OK " + vlist([vi(200), vlist([vi(2), vi(4)])])),
+        ("[1, 2].map(v, dbl) + [dbl]", "OK " + vlist([vi(2), vi(4), vi(200)])),
+        ("[dbl].map(w, [1, 2].map(v, dbl + w))", "OK " + vlist([vlist([vi(202), vi(204)])])),
+        ("dbl == 200 ? [1, 2].filter(v, dbl > 2) : []", "OK " + vlist([vi(2)])),
+        ("dbl == 200 ? [1, 2].all(v, dbl == v * 2) : false", "OK b1"),
+        ("dbl == 200 ? [1, 2].exists(v, dbl == 4) : false", "OK b1"),
+        ("dbl == 200 ? [1, 2, 3].exists_one(v, dbl == 4) : false", "OK b1"),
+        ("[3].map(v, dbl) == [6] && dbl == 200 && [4].map(v, dbl) == [8]", "OK b1"),
+        ("dbl == 200 ? [1].map(v, [2].map(v, dbl)) : []", "OK " + vlist([vlist([vi(4)])])),
+        ("cur == -1 && [7, 8].map(zz, cur) == [7, 8]", "OK b1"),
+        ("cur == -1 ? [7, 8].map(zz, cur) + [cur] : []", "OK " + vlist([vi(7), vi(8), vi(-1)])),
     ]
     for src, w in scoped:
         binds = [("l", vlist([])), ("k", vi(K)), ("v", vi(100)), ("acc", vi(-7)), ("x9", vi(1)),
                  ("m1", dict(STD_BINDS)["m1"]), ("i1", vi(5))]
-        cases.append(evalsrc_case(src, binds=binds)); want.append(((w, None), None)); labels.append(src)
+        cases.append(evalsrc_case(src, progs=[("dbl", "v * 2"), ("cur", "has(zz) ? zz : -1")], binds=binds))
+        want.append(((w, None), None)); labels.append(src)
     impl, model = tie(chk, "macros", cases, labels=labels)
     for i, (lab, c, r) in enumerate(zip(labels, cases, impl)):
         k, payload, log = split_result(r)
